@@ -101,10 +101,13 @@ class EvalMixin:
                         x2, y2 = self.unify(x, y)
                         yield st3, SV(x2.ty, z3.If(b, x2.t, y2.t))
                 return
-            sa = st1.fork(); sa.assume(b)
-            yield from self.explore(lambda: self.ev(node.body, sa), list(sa.pc))
-            sb = st1.fork(); sb.assume(z3.Not(b))
-            yield from self.explore(lambda: self.ev(node.orelse, sb), list(sb.pc))
+            b = z3.simplify(b)
+            if not z3.is_false(b):
+                sa = st1.fork(); sa.assume(b)
+                yield from self.explore(lambda: self.ev(node.body, sa), list(sa.pc))
+            if not z3.is_true(b):
+                sb = st1.fork(); sb.assume(z3.Not(b))
+                yield from self.explore(lambda: self.ev(node.orelse, sb), list(sb.pc))
 
     def unify(self, x, y):
         if x.ty == y.ty: return x, y
@@ -133,13 +136,16 @@ class EvalMixin:
                 if i == len(node.values) - 1:
                     yield st1, v
                     continue
-                b = self.truth(v)
-                short = st1.fork(); short.assume(z3.Not(b) if is_and else b)
-                # value of a short-circuited and/or is the operand itself; we only support boolean use
-                yield short, SV(T.Bool, z3.BoolVal(not is_and)) if v.ty == T.Bool or True else v
-                cont = st1.fork(); cont.assume(b if is_and else z3.Not(b))
-                for st2, w in go(i + 1, cont):
-                    yield st2, (w if w.ty == T.Bool else SV(T.Bool, self.truth(w)))
+                b = z3.simplify(self.truth(v))
+                stop_cond = z3.simplify(z3.Not(b)) if is_and else b
+                if not z3.is_false(stop_cond):
+                    short = st1.fork(); short.assume(stop_cond)
+                    # value of a short-circuited and/or is the operand itself; we only support boolean use
+                    yield short, SV(T.Bool, z3.BoolVal(not is_and))
+                if not z3.is_true(stop_cond):
+                    cont = st1.fork(); cont.assume(z3.Not(stop_cond))
+                    for st2, w in go(i + 1, cont):
+                        yield st2, (w if w.ty == T.Bool else SV(T.Bool, self.truth(w)))
         yield from go(0, st)
 
     def ev_UnaryOp(self, node, st):
@@ -279,7 +285,7 @@ class EvalMixin:
                 self.assume_wf(st, v)
                 yield st, v; return
             yield from self.obj_attr(st, base, attr, node); return
-        if base.ty in (T.Str,) or isinstance(base.ty, (T.List, T.Dict, T.Set)):
+        if base.ty in (T.Str,) or isinstance(base.ty, (T.List, T.Dict, T.Set, T.Atom)):
             yield st, SV(PyFunc, ("bound-builtin", attr, base, node.value if isinstance(node, ast.Attribute) else None)); return
         raise VCError("attribute %s on %s (line %s)" % (attr, base.ty, getattr(node, "lineno", "?")))
 
